@@ -413,3 +413,40 @@ def mon_interrupt_stamp(scn, run):
 
 ALL_SIM_MONITORS["interrupts"] = mon_interrupts
 ALL_SIM_MONITORS["interrupt_stamp"] = mon_interrupt_stamp
+
+
+# ------------------------------------------------------------------ adapters (C10)
+def mon_adapter_notifications(scn, run):
+    """each adapter is notified exactly once after each update of its own device (before
+    the Output is published) and never for another device's update; EPICS records of a device
+    are refreshed exactly once per update of that device"""
+    out = []
+    tr = run["trace"]
+    devs = {d["name"]: d for d in S.devices(scn)}
+    n_upd = {}
+    for e in tr.of("update"):
+        if not e.get("raises"):
+            n_upd[e["comp"]] = n_upd.get(e["comp"], 0) + 1
+    notes, recs = {}, {}
+    for e in tr.of("after_update"):
+        notes[(e["comp"], e["adapter"])] = notes.get((e["comp"], e["adapter"]), 0) + 1
+    for e in tr.of("record-set"):
+        recs[e["comp"]] = recs.get(e["comp"], 0) + 1
+    for name, d in devs.items():
+        beh = d.get("beh", {})
+        for i in range(beh.get("n_adapters", 1)):
+            if notes.get((name, i), 0) != n_upd.get(name, 0):
+                out.append(V("adapter-notification-count", f"adapter {i} of {name} notified {notes.get((name, i), 0)} times for {n_upd.get(name, 0)} updates", comp=name))
+        if beh.get("epics") and recs.get(name, 0) != n_upd.get(name, 0):
+            out.append(V("epics-record-refresh-count", f"EPICS record of {name} set {recs.get(name, 0)} times for {n_upd.get(name, 0)} updates of {name}", site="EpicsAdapter.after_update", comp=name))
+    # order: update(c) ... after_update(c, *) ... produce Output(c)
+    last_update = None
+    for e in tr.events:
+        if e["k"] == "update":
+            last_update = e["comp"]
+        elif e["k"] == "after_update" and e["comp"] != last_update:
+            out.append(V("adapter-notified-for-other-device", f"adapter of {e['comp']} notified right after an update of {last_update}", comp=e["comp"]))
+    return out
+
+
+ALL_SIM_MONITORS["adapters"] = mon_adapter_notifications
